@@ -348,6 +348,19 @@ def main(tier, seed, replay=None):
                 if not np.allclose(sub, LL[ix], rtol=1e-5, atol=1e-6, equal_nan=True):
                     orc = dict(what="log_likelihood of a row depends on the other rows of the batch", batch=R[ix].astype(int).tolist(),
                                in_this_batch=sub.tolist(), in_the_full_batch=LL[ix].tolist()); break
+        if orc is None:
+            # the value of a row must not depend on how the 0/1 cells are STORED (binary data usually arrives as integers)
+            for dt in (np.float64, np.int64, np.uint8, np.bool_):
+                try:
+                    with np.errstate(all="ignore"):
+                        alt = np.asarray(node.log_likelihood(R.astype(dt)), dtype=np.float64).reshape(-1)
+                except Exception as e:
+                    orc = dict(what="log_likelihood raised on the same rows stored with another dtype", dtype=np.dtype(dt).name,
+                               error=f"{type(e).__name__}: {e}"); break
+                if not np.allclose(alt, LL, rtol=1e-5, atol=1e-6, equal_nan=True):
+                    j = int(np.argmax(np.abs(np.nan_to_num(alt - LL))))
+                    orc = dict(what="log_likelihood depends on the dtype the rows are stored in", dtype=np.dtype(dt).name,
+                               row=[int(x) for x in R[j]], as_float32=float(LL[j]), as_this_dtype=float(alt[j])); break
         if orc is not None:
             noracle += 1
             if noracle <= 3:
